@@ -475,7 +475,7 @@ def check_walks(case):
                 else:
                     cur[0] += 1
     classes.extend(_case_labels(peers))
-    classes.extend(["exec/distinct-schedule"] * len(distinct))
+    classes.extend(["exec/distinct-schedule-within-case"] * len(distinct))
     f = Fails()
     for sig in sorted(found):
         cnt, detail, choices, tr = found[sig]
